@@ -84,6 +84,8 @@ class Impl:
             return self.get(body, Dimension)
         if kind == "l:":
             return items(body)
+        if kind == "g:":
+            return (x for x in items(body))       # can be walked once only
         raise ValueError(tok)
 
     def key(self, tok):
@@ -238,7 +240,20 @@ class Impl:
         if op == "split":
             x = self.get(t[1], FlodymArray)
             parts = x.split(t[2])
-            return "ok " + " ;; ".join(f"{fmt_item(k)} {fmt_arr(v)}" for k, v in parts.items())
+            shown = " ;; ".join(f"{fmt_item(k)} {fmt_arr(v)}" for k, v in parts.items())
+            # the parts are arrays of their own: writing into the source afterwards does not reach them, nor the reverse
+            before = [np.array(v.values, copy=True) for v in parts.values()]
+            src = np.array(x.values, copy=True)
+            indep = True
+            if x.values.size:
+                x.values[...] = x.values + 1000
+                indep = all(np.array_equal(b, v.values) for b, v in zip(before, parts.values()))
+                x.values[...] = src
+                for v in parts.values():
+                    if v.values.size:
+                        v.values[...] = v.values - 500
+                indep = indep and np.array_equal(src, x.values)
+            return "ok " + shown + (" | independent" if indep else " | ALIASED")
         if op == "stack":
             d = self.get(t[2], Dimension)
             return self.put_arr(t[1], flodym_array_stack([self.get(x, FlodymArray) for x in t[3:]], d))
@@ -260,8 +275,21 @@ class Impl:
             return "ok " + fmt_arr(x)
         if op == "probe_dims":
             x = self.get(t[1], FlodymArray)
-            x.dims.append(self.get(t[2], Dimension), inplace=True)
-            return "ok " + fmt_arr(x)
+            nd_ = self.get(t[2], Dimension)
+            x.dims.append(nd_, inplace=True)
+            # no other array (or set) learns of the new dimension: neither in what it lists nor in what it answers
+            leak = False
+            for o in self.objs.values():
+                ds_ = o.dims if isinstance(o, FlodymArray) else (o if isinstance(o, DimensionSet) else None)
+                if ds_ is None or ds_ is x.dims or nd_.letter in ds_.letters:
+                    continue
+                try:
+                    if (nd_.letter in ds_) or (nd_.name in ds_):
+                        leak = True
+                    ds_.shape
+                except Exception:
+                    leak = True
+            return "ok " + fmt_arr(x) + (" | others_unaffected" if not leak else " | LOOKUP-LEAK")
         if op == "mkstock":
             from flodym.stocks import SimpleFlowDrivenStock, InflowDrivenDSM
             from flodym.lifetime_models import FixedLifetime
@@ -314,6 +342,8 @@ class Impl:
             return self.put_dset(a[0], dim(a[1]) + dim(a[2]))
         if op == "subset":
             return self.put_dset(a[0], D(a[1]).get_subset(tuple(a[2:])))
+        if op == "subsetiter":
+            return self.put_dset(a[0], D(a[1]).get_subset(iter(a[2:])))      # a selection that can be walked once only
         if op == "subsetnone":
             return self.put_dset(a[0], D(a[1]).get_subset())
         if op == "copy":
